@@ -35,6 +35,11 @@ CHECKS = {
         note=TB + "PARTIAL: the MCS/resolver search is validated end to end, not modelled. The iff needs 'some atom or capacity >= 0' (a resource with no atom and negative capacity has no pulse to test) - stated as hypothesis h0 with the refuting example.",
         technique="Lean 4 theorems on the sweep model + timeline correspondence + end-to-end exact oracle",
         design="§6 C05"),
+    "C06": dict(
+        text="Translator: tools/extract_init.py re-extracts on every run the built-in rule text (INIT_STRING, LA and DL variants) from /repo/solver/CMakeLists.txt into lean/Gen/Init.lean; 5 theorems C06_* parse that text with the verified lexer/parser models (kernel evaluation) and prove that the bodies of Interval / Impulse and the top-level statements force origin <= start <= end <= horizon, duration = end - start >= 0 (LA), origin <= at <= horizon, 0 <= origin <= horizon under ANY valuation satisfying the rule's constraints. Tie: end-to-end oracle - in every reported solution of generated programs (plain Interval/Impulse predicates used directly and through rules, state variables, reusable resources; facts and goals) every ACTIVE atom satisfies the inequalities under the exposed values, in every configuration of the tier; extracted timelines are also compared with the sweep model.",
+        note=TB + "The equality `parse text = unit` is closed by Eq.refl checked by the kernel alone (tactic kernel_rfl: no axioms; a changed rule text makes the kernel reject it). PARTIAL: that the planner applies the rule to every atom of a temporal predicate (facts included) and solves its constraints is validated end to end, not modelled; end-to-end runs use the default LA temporal network.",
+        technique="translator (rule text regenerated from the build files) + Lean 4 theorems over the parsed rule + end-to-end exact oracle",
+        design="§6 C06"),
     "C08": dict(
         text="4 theorems C08_* prove for the generic difference-logic model (both instances) and the SAT core model: push followed by ANY sequence of propagations and a pop restores distances, predecessors and the responsible-constraint map exactly (first-write-wins undo log), for any nesting depth; the SAT pop restores values/levels/reasons/trail. Tie: harness/net.cpp vs the native Lean driver, exact state equality after every call on histories nesting up to 12 levels over both theories; oracle: a snapshot of everything visible taken when a level is opened must be identical after the matching pop when no clause was learnt in between, otherwise distances must equal shortest paths of the asserted constraints and no root literal may be lost.",
         note=TB + "The responsible-constraint map is compared as a sorted association list (Dl.KeysSorted hypothesis, established by the model's insert). LRA undo is covered by C09's correspondence.",
